@@ -115,7 +115,7 @@ reg(
 
 reg(
     "C10",
-    RULE="calls of HTTPConnection.request, HTTPConnectionPool.urlopen, PoolManager.request and ProxyManager.request (forwarding, absolute-form) with method / URL / header name / header value built from benign seeds by inserting each of 40 hostile strings (CR, LF, CRLF, NUL, DEL, SP, HTAB, ':', non-ASCII, percent forms, '#', '?', backslash, an embedded header line, an embedded complete request, degenerate folds ...) at every position (exhaustive for one insertion), special inputs (empty / odd methods, automatic-header supply and SKIP_HEADER combinations, repeated fields, bytes names, all body kinds incl. bodies containing a complete request), random multi-field insertions, and two-call sequences on one pool/manager (hostile call, then a benign one whose bytes must be exactly its own request); HTTP/2: names x values through HTTP2Connection.putheader observed at H2Connection.send_headers; a case is the argument tuple; all are non-trivial; distinct = distinct tuples; empty and one-byte bodies under caller-requested chunked framing; a 2-byte-item buffer body whose bytes spell a second request",
+    RULE="calls of HTTPConnection.request, HTTPConnectionPool.urlopen, PoolManager.request and ProxyManager.request (forwarding, absolute-form) with method / URL / header name / header value built from benign seeds by inserting each of 40 hostile strings (CR, LF, CRLF, NUL, DEL, SP, HTAB, ':', non-ASCII, percent forms, '#', '?', backslash, an embedded header line, an embedded complete request, degenerate folds ...) at every position (exhaustive for one insertion), special inputs (empty / odd methods, automatic-header supply and SKIP_HEADER combinations, repeated fields, bytes names, all body kinds incl. bodies containing a complete request), random multi-field insertions, and two-call sequences on one pool/manager (hostile call, then a benign one whose bytes must be exactly its own request); HTTP/2: names x values through HTTP2Connection.putheader observed at H2Connection.send_headers; a case is the argument tuple; all are non-trivial; distinct = distinct tuples; empty and one-byte bodies under caller-requested chunked framing; a 2-byte-item buffer body whose bytes spell a second request; https URLs with every hostile symbol at every position of host / port requested through a CONNECT tunnel (the bytes sent to the proxy must be one well-formed CONNECT)",
     ASSUMPTIONS=COMMON_ASSUMPTIONS + [
         "a bare CR or LF inside a header value is tolerated only when followed by SP/HTAB (a degenerate line fold: no recipient can read it as a new field); header names need not be RFC tokens (one odd header line, not an injected one)",
         "target relation: percent-decoding the emitted target gives the requested target (or its percent-decoded form) without fragment, dot-segments removed for the PoolManager/ProxyManager entries, and the emitted target uses RFC 3986 characters only; HTTPConnection.request must emit the target verbatim",
@@ -126,7 +126,7 @@ reg(
     LEVEL_TEXT="Runtime monitoring at the socket boundary: all bytes passed to sendall() are parsed by an independent strict HTTP/1.1 request parser (exactly one request, CRLF discipline, token method, no residue) and related back to the arguments (method identical, target an encoding of the requested one, caller header lines in order and unmodified, automatic Host/Accept-Encoding/User-Agent lines exactly per the rule); a call that raises must have written nothing.",
     LEVEL_NOTE="Trusts the strict parser in vf/wire.py and urllib.parse.unquote_to_bytes; inputs are the stated hostile alphabet at every position plus random combinations, not all strings.",
     TECHNIQUE="wire-level runtime monitoring with an independent strict request parser + relational oracle on method/target/headers",
-    REQUIRED_MONITORS={"quick": {"call": 10000, "wire_parse": 3000, "header_list": 2000, "target_relation": 2000, "h2_header": 1000, "sequence": 1000, "empty_body_chunked": 40}, "thorough": {"call": 50000, "wire_parse": 15000, "h2_header": 1000, "empty_body_chunked": 40}},
+    REQUIRED_MONITORS={"quick": {"call": 10000, "wire_parse": 3000, "header_list": 2000, "target_relation": 2000, "h2_header": 1000, "sequence": 1000, "empty_body_chunked": 40, "tunnel_call": 500}, "thorough": {"call": 50000, "wire_parse": 15000, "h2_header": 1000, "empty_body_chunked": 40, "tunnel_call": 500}},
 )
 
 reg(
